@@ -84,13 +84,17 @@ def run(ctx):
     if tier != "quick":
         trefs += [D(2022, m, R.choice([1, 15, calendar.monthrange(2022, m)[1]]), R.randint(0, 23), R.randint(0, 59)) for m in range(1, 13)]
         times += [(R.randint(0, 23), R.randint(0, 59)) for _ in range(20)]
+    # references inside a minute as well: the string names whole minutes, the reference does not — 'future' must still give a moment not
+    # before it when the named minute is the reference's own (13:07 seen from 13:07:30 is already past)
+    trefs = trefs + [b0 + dt.timedelta(seconds=R.randint(1, 59), microseconds=R.choice([0, 1, 250000, 999999])) for b0 in trefs]
     for b in trefs:
-        for (hh, mi) in times:
-            for pref in PREFS:
-                for tzn, off in (OFFS if tier != "quick" else OFFS[:2]):
+        for pref in PREFS:
+            for tzn, off in (OFFS if tier != "quick" else OFFS[:2]):
+                o = dt.timedelta(seconds=off)
+                local_b = b + o
+                own = [(local_b.hour, local_b.minute)] if (b.second or b.microsecond) else []
+                for (hh, mi) in (times if not own else own + [times[(b.minute + off) % len(times)]]):
                     # the reference is the instant b (UTC); the string is a wall-clock time in TIMEZONE
-                    o = dt.timedelta(seconds=off)
-                    local_b = b + o
                     cand = local_b.replace(hour=hh, minute=mi, second=0, microsecond=0)
                     if pref == "past" and cand > local_b:
                         cand -= dt.timedelta(days=1)
